@@ -58,6 +58,22 @@ type tEvent struct {
 	M    int    `json:"m"`
 	Held []int  `json:"held"`
 	Scen int    `json:"scen"`
+	G    int64  `json:"g"` // goroutine that logged the event (program order within a goroutine is exact)
+}
+
+// goid: the id of the calling goroutine (harness only: used to split a trace into per-goroutine sequences)
+func goid() int64 {
+	var buf [64]byte
+	n := runtime.Stack(buf[:], false)
+	// "goroutine 123 [running]:"
+	var id int64
+	for _, ch := range buf[10:n] {
+		if ch < '0' || ch > '9' {
+			break
+		}
+		id = id*10 + int64(ch-'0')
+	}
+	return id
 }
 
 var envActions = map[string]bool{"run": true, "stop": true, "dial": true, "close": true, "send": true, "release": true, "panic": true, "reset": true, "hold_onclose": true, "release_onclose": true, "sendpartial": true, "stopreading": true, "probe": true, "sleep": true}
@@ -121,6 +137,7 @@ type runner struct {
 }
 
 func (r *runner) emit(e tEvent) {
+	e.G = goid()
 	r.mu.Lock()
 	if r.ended {
 		// the scenario is over: what happens during clean-up is not part of the trace
@@ -240,6 +257,15 @@ func (r *runner) waitFor(exp []sEvent) {
 			i = 0
 		}
 		need[[4]string{ev, c, fmt.Sprint(i), e.S}]++
+		if ev == "hend" && e.K == "starttls" && r.scen.Cfg["tls"] == "starttls" {
+			// a real upgrade: the client side of the handshake has to be over as well before anything else is sent
+			r.mu.Lock()
+			cl := r.clients[c]
+			r.mu.Unlock()
+			if cl != nil && cl.kind != "silent" && !cl.closedLocal && !cl.isNoRead() {
+				need[[4]string{"tlsup", c, fmt.Sprint(i), ""}]++
+			}
+		}
 	}
 	deadline := time.Now().Add(slowBudget.Timeout())
 	timer := time.AfterFunc(time.Until(deadline), func() { r.mu.Lock(); r.cond.Broadcast(); r.mu.Unlock() })
@@ -890,6 +916,17 @@ func runScenario(sc *sScenario, out *hx.Out, seed int64, tlsSrv, tlsCli *tls.Con
 		if g := r.gateHook; g != nil {
 			g(point, ids...)
 		}
+		if !strings.HasPrefix(point, "write.") {
+			// the code's own linearization points, for the refinement check (GldapRefine.tla)
+			ev := tEvent{Ev: "gate", K: point}
+			if len(ids) > 0 {
+				ev.Conn = ids[0]
+			}
+			if len(ids) > 1 {
+				ev.Req = ids[1]
+			}
+			r.emit(ev)
+		}
 	})
 	defer gldap.SetVerifGate(nil)
 	r.emit(tEvent{Ev: "reset", Val: string(cfgJSON)})
@@ -902,6 +939,7 @@ func runScenario(sc *sScenario, out *hx.Out, seed int64, tlsSrv, tlsCli *tls.Con
 			continue
 		}
 		var exp []sEvent
+		r.emit(tEvent{Ev: "env_begin", K: e.A, C: e.C})
 		if e.A == "send" && sc.Cfg["coalesce"] == "1" {
 			// consecutive sends to one connection go out in a single write (one TCP segment)
 			var buf []byte
